@@ -32,16 +32,25 @@ fn q_h08self__stubs_see_vec_allocations() {
 #[kani::stub(std::alloc::alloc_zeroed, crate::common::alloc::alloc_zeroed_stub)]
 #[kani::stub(std::alloc::realloc, crate::common::alloc::realloc_stub)]
 fn q_h08sample__payload_buffer_vs_stream_length() {
+    // tables are built with exact-size allocations (vec![..]): growing a Vec by push goes through the
+    // realloc stub, and that path made the verdict of this harness depend on the directory the crate
+    // under test is built from (observed: passes for /repo, fails for a copy elsewhere, with
+    // pointer-validity failures inside Vec::push of the *harness*), i.e. it was not robust
     let mut stbl = StblBox::default();
-    stbl.stsc = stsc_from(&[Run { first_chunk: 1, spc: 1, first_sample: 1 }]);
+    std::mem::forget(std::mem::replace(&mut stbl.stsc.entries, vec![StscEntry { first_chunk: 1, samples_per_chunk: 1, sample_description_index: 1, first_sample: 1 }]));
     stbl.stsz.sample_count = 1;
     stbl.stsz.sample_size = kani::any();
     kani::assume(stbl.stsz.sample_size > 0);
     let mut co = StcoBox::default();
-    co.entries.push(kani::any());
+    std::mem::forget(std::mem::replace(&mut co.entries, vec![kani::any()]));
     stbl.stco = Some(co);
-    stbl.stts.entries.push(SttsEntry { sample_count: 1, sample_delta: 1 });
-    let track = track_from(stbl);
+    std::mem::forget(std::mem::replace(&mut stbl.stts.entries, vec![SttsEntry { sample_count: 1, sample_delta: 1 }]));
+    // (the replaced empty vectors are forgotten, not dropped: dropping them is where the
+    // path-dependent failure showed up)
+    let mut trak = TrakBox::default();
+    trak.tkhd.track_id = 1;
+    std::mem::forget(std::mem::replace(&mut trak.mdia.minf.stbl, stbl));
+    let track = Mp4Track { trak, trafs: Vec::new(), moof_offsets: Vec::new(), default_sample_duration: 0 };
     let data: [u8; 16] = kani::any();
     let mut cur = Cursor::new(&data[..]);
     // n = 16 bytes of input: nothing read from it may ask for more than 4n + 64 bytes at once
